@@ -55,7 +55,7 @@ SIM_CHECKS = [
     ("C31", "model_checking", "Every duration the worker passes to Timer::delay is recorded by the simulated timer and Trace_Worker.tla requires 0 <= d <= 50 ms on each of them, in scenario families that make each time_until_* term the minimum, including already overdue ones (deadlines shorter than the worker period, lifespans, blocked writes released by a lease expiry long after the lifespan of the blocked sample, lease expiry, announcements), also with a virtual clock that moves between two reads inside one worker iteration (clock-drift family: 0.7 / 100 / 300 us per read); Timeout of a blocked write within max_blocking_time + one period is judged by Trace_Rtps (C27 family).", "5.5, 6 C31"),
     ("C06", "model_checking", "Adversary.tla describes the datagrams an adversary can send: every RTPS submessage kind (DATA, DATA_FRAG, HEARTBEAT, HEARTBEAT_FRAG, GAP, ACKNACK, NACK_FRAG, INFO_TS/DST/SRC/REPLY/REPLY_IP4, PAD, unknown, vendor specific) with each field ranging over its default and boundary alternatives (sequence numbers 0, -1, 2^32, 2^63-1, -2^63; bitmap sizes up to 2^32-1 with missing/surplus words; fragment numbers/sizes 0, 65535, 2^32-1; lengths zero/short/beyond the datagram/odd; payloads and parameter lists empty, truncated, unterminated, with huge collection lengths, spoofed GUIDs), source prefix known/unknown/victim/zero, user and built-in (SPDP, SEDP, liveliness, type lookup) target endpoints, header and truncation variants, INFO_* prefixes, pairs of DATA_FRAG submessages that disagree, HEARTBEAT / GAP / DATA behind a partial fragment, and a GAP that leaves a hole behind the next expected change followed by a HEARTBEAT (the ACKNACK then describes a non-contiguous missing set up to the 256-bit limit). TLC enumerates all messages with at most two fields off their default (7 760); the harness encodes each byte by byte (own encoder) and injects it into a victim participant with live reliable endpoints in both directions inside the simulation; Inject must be a stuttering step for well behaved peers: no panic, no hang (wall-clock watchdog), heap growth <= 100 x datagram length + 4 MB (counting allocator), and afterwards a fresh participant must discover, match and exchange a sample in each direction with the victim; traces are validated by TLC against Trace_Adversary.tla. Quick: all single-field variants, header/truncation/prefix variants and a seeded quarter of the two-field variants; thorough: all.", "6 C06"),
     ("C26", "model_checking", "Trace_Filter.tla: a writer publishes samples of the related topic; on another participant a reader on a content filtered topic (member = %0 or member <= %0 on an INT32 key, an INT32 member or a STRING member, several spellings of the expression) and a control reader on the related topic take samples; in every second scenario a second filtered reader of the same subscriber with the same expression and another parameter takes samples too and is judged by its own filter. Rules: every presented sample was written, is unchanged, passes the filter and is presented once; at the end every passing sample the related topic delivered was presented by the filtered reader. Scenario families: bursts, gaps, seeded loss/duplication/reordering, TRANSIENT_LOCAL late joiners and 'batched' (the simulated network merges the held datagrams of the writer into one RTPS message with several DATA submessages, as a batching peer would send them); traces validated event by event by TLC.", "6 C26"),
-    ("C27", "model_checking", sim_text("Decides that a reliable KEEP_LAST write evicts only acknowledged samples, blocks otherwise and times out within max_blocking_time + one worker period."), "5.1, 6 C27"),
+    ("C27", "model_checking", sim_text("Decides that a reliable KEEP_LAST write evicts only acknowledged samples, blocks otherwise and times out within max_blocking_time + one worker period. WriterAcks.tla specifies which changes count as acknowledged (every matched reliable reader acknowledged them with an ACKNACK addressed to THIS writer, from a matched reader, with a fresh count; ACKNACKs for a sibling writer of the participant, from unknown or best-effort readers or with a stale count change nothing); all histories of <= 5 calls (add_change, add/delete_matched_reader, on_acknack_submessage_received over 2 readers + a stranger, 2 sequence numbers) are replayed on the real RtpsStatefulWriter and is_change_acknowledged of every sequence number is compared after every call."), "5.1, 6 C27"),
     ("C29", "model_checking", sim_text("Decides that no DATA/DATA_FRAG of a sample is emitted after source timestamp + lifespan (first transmission, repair, history)."), "5.1, 6 C29"),
 ]
 
